@@ -160,6 +160,7 @@ pub fn dispatch(op: &[Value]) -> Result<Value, String> {
         "v_canon_stage" => libmathcat::verif::interface::canonicalize_stage(&s(op, 1), &s(op, 2)).map(Value::String).map_err(e2s),
         "v_definitions_set" => Ok(json!(libmathcat::verif::canonicalize::definitions_set(&s(op, 1)))),
         "v_take_array_log" => Ok(json!(libmathcat::verif::speech::take_array_log())),
+        "v_take_load_log" => Ok(json!(libmathcat::verif::speech::take_load_log())),
         _ => Err(format!("HARNESS: unknown op '{}'", name)),
     }
 }
